@@ -197,6 +197,16 @@ func initLibSpecs() {
 	for _, n := range []string{"(*log.Logger).Printf", "(*log.Logger).Print", "(*log.Logger).Println", "(*log.Logger).SetPrefix", "(*log.Logger).SetOutput", "time.Sleep"} {
 		L[n] = noop(n)
 	}
+	L["unicode/utf8.DecodeRuneInString"] = &libSpec{fn: func(s *State, c *ssa.CallCommon, args []Val, where string) Val {
+		s.trust("utf8.DecodeRuneInString(s) = (opaque rune, size) with size == 0 iff s is empty, otherwise 1 <= size <= min(4, len(s))")
+		x := args[0].Terms[0]
+		r := s.fresh("rune", sInt)
+		sz := s.fresh("runesize", sInt)
+		n := app("str.len", x)
+		s.assume(and(app("<=", "0", r), app("<=", r, "1114111")))
+		s.assume(ite(eq(n, "0"), eq(sz, "0"), and(app("<=", "1", sz), app("<=", sz, "4"), app("<=", sz, n))))
+		return Val{T: c.Signature().Results(), Terms: []string{r, sz}}
+	}}
 	L["(*regexp.Regexp).FindStringSubmatch"] = &libSpec{allocs: true, fn: specFindStringSubmatch}
 	L["(*sync.Mutex).Lock"] = &libSpec{fn: func(s *State, c *ssa.CallCommon, args []Val, where string) Val {
 		s.mutexOp(args[0], true, where)
